@@ -4,6 +4,8 @@ import (
 	"fmt"
 	"go/ast"
 	"go/token"
+	"sort"
+	"strconv"
 	"strings"
 )
 
@@ -460,11 +462,13 @@ func importRules(repo string) (string, error) {
 	}
 
 	// ---------------- extractImports ----------------
-	// for scanner.Scan() { if bytes.HasPrefix(scanner.Bytes(), importStmtPrefix) { importsInput.Write(..); importsInput.WriteByte('\n') } }
-	// with var importStmtPrefix = []byte("import "): every line with the prefix, wherever it stands.
+	// for scanner.Scan() { if <line is an import statement> { importsInput.Write(..); importsInput.WriteByte('\n') } }
+	// where the test is either bytes.HasPrefix(line, <var = []byte("import"+sep)>) or isImportLine(line) with
+	//   return bytes.HasPrefix(line, kw) && len(line) > len(kw) && (line[len(kw)] == c1 || line[len(kw)] == c2 ...)
+	// and kw = []byte("import"). What is extracted: the characters accepted right after the keyword.
 	extractAll := false
-	if ex := irFindFunc(pf.file, "extractImports"); ex != nil {
-		prefixOK := false
+	var seps []int
+	byteVar := func(name string) (string, bool) { // var name = []byte("...")
 		for _, d := range pf.file.Decls {
 			gd, ok := d.(*ast.GenDecl)
 			if !ok || gd.Tok != token.VAR {
@@ -472,16 +476,128 @@ func importRules(repo string) (string, error) {
 			}
 			for _, sp := range gd.Specs {
 				vs, ok := sp.(*ast.ValueSpec)
-				if !ok || len(vs.Names) != 1 || vs.Names[0].Name != "importStmtPrefix" || len(vs.Values) != 1 {
+				if !ok || len(vs.Names) != 1 || vs.Names[0].Name != name || len(vs.Values) != 1 {
 					continue
 				}
 				if c, ok := vs.Values[0].(*ast.CallExpr); ok && len(c.Args) == 1 {
-					if l, ok := c.Args[0].(*ast.BasicLit); ok && l.Value == `"import "` {
-						prefixOK = true
+					if l, ok := c.Args[0].(*ast.BasicLit); ok && l.Kind == token.STRING {
+						if v, err := strconv.Unquote(l.Value); err == nil {
+							return v, true
+						}
 					}
 				}
 			}
 		}
+		return "", false
+	}
+	var conj func(e ast.Expr, op token.Token, out *[]ast.Expr)
+	conj = func(e ast.Expr, op token.Token, out *[]ast.Expr) {
+		for {
+			if p, ok := e.(*ast.ParenExpr); ok {
+				e = p.X
+				continue
+			}
+			break
+		}
+		if be, ok := e.(*ast.BinaryExpr); ok && be.Op == op {
+			conj(be.X, op, out)
+			conj(be.Y, op, out)
+			return
+		}
+		*out = append(*out, e)
+	}
+	isLenOf := func(e ast.Expr, name string) bool {
+		c, ok := e.(*ast.CallExpr)
+		return ok && isIdent(c.Fun, "len") && len(c.Args) == 1 && isIdent(c.Args[0], name)
+	}
+	// classify the test applied to a line; returns the accepted separators
+	lineTest := func(cond ast.Expr) ([]int, bool) {
+		c, ok := cond.(*ast.CallExpr)
+		if !ok {
+			return nil, false
+		}
+		isLine := func(e ast.Expr) bool {
+			a0, ok := e.(*ast.CallExpr)
+			return ok && len(selChain(a0.Fun)) == 2 && selChain(a0.Fun)[1] == "Bytes"
+		}
+		if irChainIs(c.Fun, "bytes", "HasPrefix") && len(c.Args) == 2 && isLine(c.Args[0]) {
+			if id, ok := c.Args[1].(*ast.Ident); ok {
+				if v, ok := byteVar(id.Name); ok && len(v) == 7 && v[:6] == "import" {
+					return []int{int(v[6])}, true
+				}
+			}
+			return nil, false
+		}
+		id, ok := c.Fun.(*ast.Ident)
+		if !ok || len(c.Args) != 1 || !isLine(c.Args[0]) {
+			return nil, false
+		}
+		fd := irFindFunc(pf.file, id.Name)
+		if fd == nil || fd.Type.Params == nil || len(fd.Type.Params.List) != 1 || len(fd.Type.Params.List[0].Names) != 1 || len(fd.Body.List) != 1 {
+			return nil, false
+		}
+		param := fd.Type.Params.List[0].Names[0].Name
+		rs, ok := fd.Body.List[0].(*ast.ReturnStmt)
+		if !ok || len(rs.Results) != 1 {
+			return nil, false
+		}
+		var parts []ast.Expr
+		conj(rs.Results[0], token.LAND, &parts)
+		if len(parts) != 3 {
+			return nil, false
+		}
+		kw, okPrefix, okLen := "", false, false
+		var out []int
+		for _, pt := range parts {
+			switch x := pt.(type) {
+			case *ast.CallExpr:
+				if irChainIs(x.Fun, "bytes", "HasPrefix") && len(x.Args) == 2 && isIdent(x.Args[0], param) {
+					if id, ok := x.Args[1].(*ast.Ident); ok {
+						if v, ok := byteVar(id.Name); ok && v == "import" {
+							kw, okPrefix = id.Name, true
+						}
+					}
+				}
+			}
+		}
+		if !okPrefix {
+			return nil, false
+		}
+		for _, pt := range parts {
+			be, ok := pt.(*ast.BinaryExpr)
+			if !ok {
+				continue
+			}
+			if be.Op == token.GTR && isLenOf(be.X, param) && isLenOf(be.Y, kw) {
+				okLen = true
+				continue
+			}
+			var alts []ast.Expr
+			conj(pt, token.LOR, &alts)
+			for _, a := range alts {
+				ab, ok := a.(*ast.BinaryExpr)
+				if !ok || ab.Op != token.EQL {
+					return nil, false
+				}
+				ix, ok := ab.X.(*ast.IndexExpr)
+				lit, ok2 := ab.Y.(*ast.BasicLit)
+				if !ok || !ok2 || !isIdent(ix.X, param) || !isLenOf(ix.Index, kw) || lit.Kind != token.CHAR {
+					return nil, false
+				}
+				v, _, _, err := strconv.UnquoteChar(lit.Value[1:len(lit.Value)-1], '\'')
+				if err != nil {
+					return nil, false
+				}
+				out = append(out, int(v))
+			}
+		}
+		if !okLen || len(out) == 0 {
+			return nil, false
+		}
+		sort.Ints(out)
+		return out, true
+	}
+	if ex := irFindFunc(pf.file, "extractImports"); ex != nil {
 		nLoops, loopOK := 0, false
 		for _, st := range ex.Body.List {
 			fs, ok := st.(*ast.ForStmt)
@@ -500,11 +616,8 @@ func importRules(repo string) (string, error) {
 			if !ok || is.Init != nil || is.Else != nil {
 				continue
 			}
-			hp, ok := is.Cond.(*ast.CallExpr)
-			if !ok || !irChainIs(hp.Fun, "bytes", "HasPrefix") || len(hp.Args) != 2 || !isIdent(hp.Args[1], "importStmtPrefix") {
-				continue
-			}
-			if a0, ok := hp.Args[0].(*ast.CallExpr); !ok || len(selChain(a0.Fun)) != 2 || selChain(a0.Fun)[1] != "Bytes" {
+			sp, ok := lineTest(is.Cond)
+			if !ok {
 				continue
 			}
 			// the body only writes (no break / return / continue / nested control flow)
@@ -520,14 +633,20 @@ func importRules(repo string) (string, error) {
 				}
 				other++
 			}
-			loopOK = writes == 2 && other == 0
+			if writes == 2 && other == 0 {
+				loopOK, seps = true, sp
+			}
 		}
-		extractAll = prefixOK && loopOK && nLoops == 1
+		extractAll = loopOK && nLoops == 1
+	}
+	sepS := make([]string, len(seps))
+	for i, c := range seps {
+		sepS[i] = fmt.Sprint(c)
 	}
 
 	var sb strings.Builder
 	sb.WriteString("(* GENERATED by vt ImportRules from pkg/parse/parse.go, pkg/parse/utils.go -- do not edit *)\n")
-	sb.WriteString("From Coq Require Import List.\nImport ListNotations.\nRequire Import Verif.Imports.Rules.\n")
+	sb.WriteString("From Coq Require Import List NArith.\nImport ListNotations.\nRequire Import Verif.Imports.Rules.\n")
 	sb.WriteString("Definition current_rules : rules := {|\n")
 	fmt.Fprintf(&sb, "  depth_guard_first := %s;\n", irBool(guardFirst))
 	fmt.Fprintf(&sb, "  depth_needs_positive_max := %s;\n", irBool(needsPos))
@@ -542,6 +661,7 @@ func importRules(repo string) (string, error) {
 	fmt.Fprintf(&sb, "  flatten_preorder := %s;\n", irBool(preorder))
 	fmt.Fprintf(&sb, "  flatten_order := %s;\n", dir)
 	fmt.Fprintf(&sb, "  index_ops := [%s];\n", strings.Join(ops, "; "))
-	fmt.Fprintf(&sb, "  extract_every_import_line := %s\n|}.\n", irBool(extractAll))
+	fmt.Fprintf(&sb, "  extract_every_import_line := %s;\n", irBool(extractAll))
+	fmt.Fprintf(&sb, "  extract_separators := [%s]%%N\n|}.\n", strings.Join(sepS, "; "))
 	return sb.String(), nil
 }
